@@ -392,7 +392,7 @@ fn strategy() -> impl Strategy<Value = AOp> {
 
 pub fn parts(ctx: &mut Ctx) {
     let len = ctx.scale(5, 6);
-    let n = ctx.scale(12_000, 200_000);
+    let n = ctx.scale(12_000, 400_000);
     let alpha = vec![AOp::Alloc(0, 1), AOp::Alloc(1, 2), AOp::Alloc(4, 3), AOp::Dealloc(0), AOp::Dealloc(65535)];
     driver::parts_cfg::<AllocSut<BB_POOL>>(ctx, alpha.clone(), len, 2, 10, &[0, 1, 2, 3], &[0, 1, 2, 3, 4], strategy(), n);
     driver::parts_cfg::<AllocSut<CAL_POOL>>(ctx, alpha, len, 2, 10, &[0, 1, 2, 3], &[0, 1, 2, 3, 4], strategy(), n);
